@@ -113,9 +113,10 @@ def ref_resolve(doc, key):
         name, index = seg, None
         if seg.endswith(']') and '[' in seg:
             name, rest = seg.split('[', 1)
-            # the text between the first '[' and the next '[' (or the end), minus the closing bracket
-            inner = rest.split('[')[0]
-            if not inner.endswith(']'):
+            # `name[i]`: exactly one index; anything after it (`a[0][1]`, `a[0][zz]`) addresses something else than
+            # a[0] and must not be answered with a[0] (never fabricated from a shorter path)
+            inner = rest
+            if '[' in rest or not inner.endswith(']'):
                 index = 'bad'
             else:
                 txt = inner[:-1]
